@@ -512,7 +512,12 @@ func instrumentCost(file string, src []byte, label string, names *[]string) ([]b
 		ok := true
 		ast.Inspect(e, func(x ast.Node) bool {
 			switch u := x.(type) {
-			case *ast.CallExpr, *ast.FuncLit:
+			case *ast.CallExpr:
+				if f, isID := u.Fun.(*ast.Ident); isID && (f.Name == "len" || f.Name == "cap") && len(u.Args) == 1 {
+					return true // len/cap of a simple expression is as harmless as the expression
+				}
+				ok = false
+			case *ast.FuncLit:
 				ok = false
 			case *ast.UnaryExpr:
 				if u.Op == token.ARROW {
@@ -535,6 +540,18 @@ func instrumentCost(file string, src []byte, label string, names *[]string) ([]b
 					return false
 				}
 				c, ok := x.(*ast.CallExpr)
+				if ok {
+					// make(T, n) / make(T, n, c): allocating and clearing c elements is work and
+					// memory proportional to c; charged like a bulk move of c elements
+					if fn, isID := c.Fun.(*ast.Ident); isID && fn.Name == "make" && (len(c.Args) == 2 || len(c.Args) == 3) {
+						sz := c.Args[len(c.Args)-1]
+						if simple(sz) {
+							a, b := fset.Position(sz.Pos()).Offset, fset.Position(sz.End()).Offset
+							inserts = append(inserts, ins{fset.Position(st.Pos()).Offset, id, fmt.Sprintf(" verifcost.C[%d] += verifcost.Bulk(int(%s), int(%s)); ", id, src[a:b], src[a:b])})
+						}
+						return true
+					}
+				}
 				if !ok || len(c.Args) != 2 {
 					return true
 				}
